@@ -388,39 +388,80 @@ class Repo:
                     return res
             return []
         name = dotted(f)
-        if name is None:
-            return []
-        r = self.resolve_name(module, name)
+        r = self.resolve_name(module, name) if name is not None else None
         if isinstance(r, FuncInfo):
             return [r]
         if isinstance(r, ClassInfo):
             init = r.find_method('__init__')
             return [init] if init else []
+        # call through a parameter whose default value is a repository function
+        if isinstance(f, ast.Name) and isinstance(func, FuncInfo):
+            fi = func
+            while fi is not None:
+                a = fi.node.args
+                names = [x.arg for x in a.posonlyargs + a.args]
+                defaults = dict(zip(names[len(names) - len(a.defaults):], a.defaults))
+                defaults.update({k.arg: d for k, d in zip(a.kwonlyargs, a.kw_defaults) if d is not None})
+                d = defaults.get(f.id)
+                if d is not None and dotted(d):
+                    r2 = self.resolve_name(module, dotted(d))
+                    if isinstance(r2, FuncInfo):
+                        return [r2]
+                fi = fi.parent
+        # method call on a receiver of unknown type: resolved when exactly one class of the
+        # repository (tests excluded) defines a method of that name
+        if isinstance(f, ast.Attribute):
+            cands = self.method_index().get(f.attr, [])
+            if len(cands) == 1:
+                return list(cands)
         return []
 
+    def method_index(self):
+        if not hasattr(self, '_method_index'):
+            idx = {}
+            for c in self.all_classes():
+                for nm, m in c.methods.items():
+                    idx.setdefault(nm, []).append(m)
+            self._method_index = idx
+        return self._method_index
+
     def callees(self, func):
+        """(call node, target) pairs; a repository function passed as an argument counts as a
+        possible callee (it escapes into the callee, which may call it)."""
         res = []
         for n in ast.walk(func.node):
             if isinstance(n, ast.Call):
                 for t in self.resolve_call(func, n):
                     res.append((n, t))
+                for a in list(n.args) + [k.value for k in n.keywords]:
+                    nm = dotted(a)
+                    if nm and not (isinstance(a, ast.Name) and a.id in ('self', 'cls')):
+                        r = self.resolve_name(func.module, nm)
+                        if isinstance(r, FuncInfo):
+                            res.append((n, r))
         return res
 
     def reachable_funcs(self, entries, depth=None):
-        """Transitive closure of resolved calls from the given FuncInfos (nested defs included)."""
+        """Transitive closure of resolved calls from the given FuncInfos, breadth first, to the given
+        call depth; nested functions of a reached function are reached at the same depth."""
         seen = {}
-        todo = [(e, 0) for e in entries]
-        while todo:
-            f, d = todo.pop()
-            if id(f) in seen:
-                continue
-            seen[id(f)] = f
-            if depth is not None and d >= depth:
-                continue
-            for sub in f.nested.values():
-                todo.append((sub, d))
-            for _, t in self.callees(f):
-                todo.append((t, d + 1))
+        frontier = list(entries)
+        d = 0
+        while frontier:
+            nxt = []
+            todo = list(frontier)
+            while todo:
+                f = todo.pop()
+                if id(f) in seen:
+                    continue
+                seen[id(f)] = f
+                todo.extend(f.nested.values())
+                if depth is None or d < depth:
+                    for _, t in self.callees(f):
+                        if id(t) not in seen:
+                            nxt.append(t)
+            frontier = nxt
+            d += 1
         return list(seen.values())
 
     # ------------------------------------------------------------------ imports
